@@ -1,0 +1,156 @@
+//! Verification doors: UDP / ICMP multiplexer codecs, checksum, IP header skipping
+//! (cfg(trusttunnel_verif) only)
+
+use crate::http_datagram_codec::{DecodeResult, Decoder as _, Encoder as _};
+use crate::{downstream, forwarder, http_icmp_codec, http_udp_codec, log_utils, net_utils};
+use bytes::Bytes;
+use std::net::{IpAddr, SocketAddr};
+
+/// Plain view of a decoded client->endpoint UDP record
+#[derive(Debug, Clone, PartialEq, Eq)]
+pub struct UdpIn {
+    pub source: SocketAddr,
+    pub destination: SocketAddr,
+    pub app_name: Option<String>,
+    pub payload: Vec<u8>,
+}
+
+pub struct UdpDecoder(http_udp_codec::Decoder);
+
+impl Default for UdpDecoder {
+    fn default() -> Self {
+        Self::new()
+    }
+}
+
+impl UdpDecoder {
+    pub fn new() -> Self {
+        Self(http_udp_codec::Decoder::new(log_utils::IdChain::empty()))
+    }
+
+    /// One call of `decode_chunk`: the datagram (if one completed) and the unprocessed tail
+    pub fn decode_chunk(&mut self, data: &[u8]) -> (Option<UdpIn>, Vec<u8>) {
+        match self.0.decode_chunk(Bytes::copy_from_slice(data)) {
+            DecodeResult::WantMore => (None, Vec::new()),
+            DecodeResult::Complete(d, tail) => (Some(view_udp(d)), tail.to_vec()),
+        }
+    }
+
+    /// (state name, state argument, buffered bytes)
+    pub fn state(&self) -> (&'static str, usize, usize) {
+        self.0.verif_state()
+    }
+
+    /// Feed a chunk the way `DatagramDecoder::read` does: the tail is re-offered until
+    /// the chunk is used up. Returns every datagram completed by this chunk.
+    pub fn feed(&mut self, data: &[u8]) -> Vec<UdpIn> {
+        let mut out = Vec::new();
+        let mut cur = Bytes::copy_from_slice(data);
+        let mut budget = 4 * data.len() + 16;
+        while !cur.is_empty() {
+            budget -= 1;
+            if budget == 0 {
+                panic!("verif: decoder made no progress on a non-empty chunk");
+            }
+            match self.0.decode_chunk(cur) {
+                DecodeResult::WantMore => break,
+                DecodeResult::Complete(d, tail) => {
+                    out.push(view_udp(d));
+                    cur = tail;
+                }
+            }
+        }
+        out
+    }
+}
+
+fn view_udp(d: downstream::UdpDatagram) -> UdpIn {
+    UdpIn {
+        source: d.meta.source,
+        destination: d.meta.destination,
+        app_name: d.meta.app_name,
+        payload: d.payload.to_vec(),
+    }
+}
+
+/// Encode an endpoint->client UDP record
+pub fn udp_encode(source: SocketAddr, destination: SocketAddr, payload: &[u8]) -> Option<Vec<u8>> {
+    http_udp_codec::Encoder::default()
+        .encode_packet(&forwarder::UdpDatagram {
+            meta: forwarder::UdpDatagramMeta {
+                source,
+                destination,
+            },
+            payload: Bytes::copy_from_slice(payload),
+        })
+        .map(|x| x.to_vec())
+}
+
+/// Plain view of a decoded ICMP echo request record
+#[derive(Debug, Clone, PartialEq, Eq)]
+pub struct IcmpReq {
+    pub peer: IpAddr,
+    pub is_v4_message: bool,
+    pub identifier: u16,
+    pub sequence_number: u16,
+    pub ttl: u8,
+    pub data_len: usize,
+    pub code: u8,
+}
+
+pub struct IcmpDecoder(http_icmp_codec::Decoder);
+
+impl Default for IcmpDecoder {
+    fn default() -> Self {
+        Self::new()
+    }
+}
+
+impl IcmpDecoder {
+    pub fn new() -> Self {
+        Self(http_icmp_codec::Decoder::new())
+    }
+
+    pub fn decode_chunk(&mut self, data: &[u8]) -> (Option<IcmpReq>, Vec<u8>) {
+        match self.0.decode_chunk(Bytes::copy_from_slice(data)) {
+            DecodeResult::WantMore => (None, Vec::new()),
+            DecodeResult::Complete(d, tail) => {
+                use crate::icmp_utils::{v4, v6, Message};
+                let (is_v4, echo) = match &d.message {
+                    Message::V4(v4::Message::Echo(e)) => (true, e),
+                    Message::V6(v6::Message::EchoRequest(e)) => (false, e),
+                    _ => panic!("verif: unexpected message kind from the ICMP decoder"),
+                };
+                (
+                    Some(IcmpReq {
+                        peer: d.meta.peer,
+                        is_v4_message: is_v4,
+                        identifier: echo.identifier,
+                        sequence_number: echo.sequence_number,
+                        ttl: d.ttl,
+                        data_len: echo.data.len(),
+                        code: echo.code,
+                    }),
+                    tail.to_vec(),
+                )
+            }
+        }
+    }
+}
+
+pub fn rfc1071_checksum(bytes: &[u8]) -> u16 {
+    net_utils::rfc1071_checksum(bytes)
+}
+
+pub fn skip_ipv4_header(packet: &[u8]) -> Option<(i32, Vec<u8>)> {
+    net_utils::skip_ipv4_header(Bytes::copy_from_slice(packet)).map(|(p, b)| (p, b.to_vec()))
+}
+
+pub fn skip_ipv6_header(packet: &[u8]) -> Option<(i32, Vec<u8>)> {
+    net_utils::skip_ipv6_header(Bytes::copy_from_slice(packet)).map(|(p, b)| (p, b.to_vec()))
+}
+
+pub fn get_fixed_size_ip(bytes16: &[u8; 16]) -> IpAddr {
+    let mut b = Bytes::copy_from_slice(bytes16);
+    net_utils::get_fixed_size_ip(&mut b)
+}
